@@ -12,16 +12,15 @@ def fileRefs (l : List Nat) : List Ref := l.map fun i => ⟨i, []⟩
 
 /-- the result of accessor `acc` on entity `r` of a freshly built (bidirectional) AST:
     declaration-ordered listings as sequences, derived relations sorted -/
-def freshResult (w : World) (g : Graph) (r : Ref) (acc : String) : List Ref :=
+def freshResultQ (q : Ref → QKind → List Ref) (fdpt : Nat → List Nat)
+    (w : World) (g : Graph) (r : Ref) (acc : String) : List Ref :=
   let n := w.files.length
-  let edges := usesList w g
-  let ee := enumUses w g
   match r.path, w.files[r.file]? with
   | [], some f =>
     (match acc with
      | "imports" => fileRefs (g.depsOf r.file)
      | "transitive" => fileRefs (sortNat (transImports g n r.file))
-     | "dependents" => fileRefs (sortNat (dependentsOf g n n r.file))
+     | "dependents" => fileRefs (fdpt r.file)
      | "unused" => fileRefs (sortNat (unusedImports w g r.file f))
      | "messages" => (f.msgs.indices false 0).map fun j => ⟨r.file, [4, j]⟩
      | "allMessages" => sortRefs (allMsgRefs r.file [] 4 0 f.msgs)
@@ -34,7 +33,7 @@ def freshResult (w : World) (g : Graph) (r : Ref) (acc : String) : List Ref :=
   | [5, i], some f =>
     (match f.enums[i]?, acc with
      | some e, "values" => childRefs r.file r.path 2 e.values.length
-     | some _, "edpts" => sortRefs (query edges ee Caches.empty r .enumDependents).2
+     | some _, "edpts" => sortRefs (q r .enumDependents)
      | some _, "walk" => (walkModel [] w r false).trace.map (·.1)
      | _, _ => [])
   | [6, i], some f =>
@@ -61,8 +60,8 @@ def freshResult (w : World) (g : Graph) (r : Ref) (acc : String) : List Ref :=
        | "synthFields" => (((List.range h.oneofs.length).filter (pgsSynthetic f h)).map members).flatten
        | "realOneofs" => ((List.range h.oneofs.length).filter (fun o => !pgsSynthetic f h o)).map fun o => ⟨r.file, r.path ++ [8, o]⟩
        | "imports" => fileRefs (sortNat ((msgFieldRefs r h).map (fieldImports g)).flatten)
-       | "deps" => sortRefs (query edges ee Caches.empty r .dependencies).2
-       | "dpts" => sortRefs (query edges ee Caches.empty r .dependents).2
+       | "deps" => sortRefs (q r .dependencies)
+       | "dpts" => sortRefs (q r .dependents)
        | "walk" => if h.mapEntry then [] else (walkModel [] w r false).trace.map (·.1)
        | _ => [])
     | none =>
@@ -72,11 +71,57 @@ def freshResult (w : World) (g : Graph) (r : Ref) (acc : String) : List Ref :=
         (match w.msgAt ⟨r.file, rp.reverse⟩ with
          | some (h, _) => (match h.enums[i]?, acc with
            | some e, "values" => childRefs r.file r.path 2 e.values.length
-           | some _, "edpts" => sortRefs (query edges ee Caches.empty r .enumDependents).2
+           | some _, "edpts" => sortRefs (q r .enumDependents)
            | _, _ => [])
          | none => [])
       | _ => []
   | _, none => []
+
+/-- the two memoised relations, answered by an AST whose caches are still empty -/
+def freshQ (w : World) (g : Graph) (r : Ref) (k : QKind) : List Ref :=
+  (query (usesList w g) (enumUses w g) Caches.empty r k).2
+def freshFileDependents (w : World) (g : Graph) (fi : Nat) : List Nat :=
+  sortNat (dependentsOf g w.files.length w.files.length fi)
+
+/-- the result of accessor `acc` on entity `r` of a freshly built AST (first call) -/
+def freshResult (w : World) (g : Graph) (r : Ref) (acc : String) : List Ref :=
+  freshResultQ (freshQ w g) (freshFileDependents w g) w g r acc
+
+/-! ### histories: the same accessors on an AST whose lazily filled caches are in any state that
+    earlier calls can have left -/
+structure HState where
+  mc : Caches                          -- message / enum closures (message.go, enum.go)
+  fc : List (Nat × List Nat)           -- file.dependentsCache, per file
+deriving Repr
+
+def HState.fresh : HState := ⟨Caches.empty, []⟩
+
+def kindOf : String → Option QKind
+  | "deps" => some .dependencies
+  | "dpts" => some .dependents
+  | "edpts" => some .enumDependents
+  | _ => none
+
+def HState.fileDependents (w : World) (g : Graph) (st : HState) (fi : Nat) : List Nat :=
+  match st.fc.find? (·.1 == fi) with
+  | some (_, l) => l
+  | none => freshFileDependents w g fi
+
+/-- one accessor call in state `st`: cached answers are read, missing ones computed and stored -/
+def stepH (w : World) (g : Graph) (st : HState) (op : Ref × String) : HState × List Ref :=
+  let edges := usesList w g
+  let ee := enumUses w g
+  let res := freshResultQ (fun r k => (query edges ee st.mc r k).2) (st.fileDependents w g) w g op.1 op.2
+  let mc' := match kindOf op.2 with
+    | some k => (query edges ee st.mc op.1 k).1
+    | none => st.mc
+  let fc' := if op.2 == "dependents" && (st.fc.find? (·.1 == op.1.file)).isNone
+    then (op.1.file, freshFileDependents w g op.1.file) :: st.fc else st.fc
+  (⟨mc', fc'⟩, res)
+
+def runHistory (w : World) (g : Graph) : HState → List (Ref × String) → List (List Ref)
+  | _, [] => []
+  | st, op :: ops => let (st', r) := stepH w g st op; r :: runHistory w g st' ops
 
 structure OpRes where
   res : List Ref
@@ -91,7 +136,7 @@ deriving Repr, DecidableEq, FromJson, ToJson
 def c06Model (w : World) (ops : List (Ref × String)) : C06Obs :=
   match hydrate w with
   | .error _ => ⟨true, []⟩
-  | .ok g => ⟨false, ops.map fun (r, acc) => ⟨freshResult w g r acc, true⟩⟩
+  | .ok g => ⟨false, (runHistory w g HState.fresh ops).map fun res => ⟨res, true⟩⟩   -- the stateful model, call by call
 
 def judgeC06 (w : World) (ops : List (Ref × String)) (o : C06Obs) : Option String :=
   if o.failed then some "building failed" else
